@@ -3,7 +3,7 @@
    Flocq's Zfloor / Zceil. *)
 From Coq Require Import Reals ZArith List Lia Lra Permutation.
 From Flocq Require Import Core.Raux.
-From SC Require Import Num Grid GridProofs.
+From SC Require Import Num Grid GridProofs FloatIO FloatGridProofs.
 Import ListNotations.
 Local Open Scope R_scope.
 
@@ -90,3 +90,31 @@ Print Assumptions neighbourhood_sound.
    extent a multiple of the voxel size, epsilon absorbed) satisfies the hypotheses, corner included *)
 Example box_witness : box_ok (2,2,2) (3,3,3) /\ in_box (2,2,2) (3,3,3) (3,3,3).
 Proof. unfold box_ok, in_box. lra. Qed.
+
+(* 6. AT BINARY64: the voxel index that is extracted and run (Grid.idx1 with Coq's primitive floats and the exact floor of
+   FloatIO.v) is monotone, and a point between two points gets an index between theirs.  fR x is the real value of the
+   float x (Flocq's B2R after Prim2B), ffin x its finiteness.  This is the fact on which "a node inside the padded box of a
+   face finds that face in its own voxel" (C06) and "an object is found from every point within one voxel size" rest; over R
+   it is the monotonicity of floor((x - min)/s), here it holds for the rounded subtraction and division as well. *)
+Module Binary64.
+  Import FloatGridProofs.
+  Theorem voxel_index_monotone_binary64 : forall (lo s : PrimFloat.float) (nb : Z) (x y : PrimFloat.float),
+    (0 < fR s)%R -> (fR x <= fR y)%R ->
+    ffin (PrimFloat.div (PrimFloat.sub x lo) s) = true -> ffin (PrimFloat.div (PrimFloat.sub y lo) s) = true ->
+    (idx1 NumF FloatIO.f_floorZ lo s nb x <= idx1 NumF FloatIO.f_floorZ lo s nb y)%Z.
+  Proof. exact f_idx1_monotone_weak. Qed.
+  Print Assumptions voxel_index_monotone_binary64.
+
+  Theorem voxel_index_between_binary64 : forall (lo s : PrimFloat.float) (nb : Z) (a x b : PrimFloat.float),
+    ffin x = true -> (0 < fR s)%R -> (fR a <= fR x <= fR b)%R ->
+    ffin (PrimFloat.div (PrimFloat.sub a lo) s) = true -> ffin (PrimFloat.div (PrimFloat.sub b lo) s) = true ->
+    ffin (PrimFloat.div (PrimFloat.sub x lo) s) = true /\
+    (idx1 NumF FloatIO.f_floorZ lo s nb a <= idx1 NumF FloatIO.f_floorZ lo s nb x <= idx1 NumF FloatIO.f_floorZ lo s nb b)%Z.
+  Proof. exact f_idx1_between_weak. Qed.
+  Print Assumptions voxel_index_between_binary64.
+
+  (* the model's floor is the mathematical floor of the float's value *)
+  Theorem float_floor_is_floor : forall x : PrimFloat.float, ffin x = true -> FloatIO.f_floorZ x = Raux.Zfloor (fR x).
+  Proof. exact f_floorZ_spec. Qed.
+  Print Assumptions float_floor_is_floor.
+End Binary64.
